@@ -6,7 +6,7 @@ from worldprop import COMMON_ASSUMPTIONS, COMMON_TRUSTED, count_dist
 PID = 'C12'
 CHECK_FN = 'check_C12'
 RULE = ('random worlds with rich outcomes (several events per test, failing subtests, unexpected successes, skips of every kind, layer '
-        'setUp/tearDown failures), verbosity 0..2, sequential / resumed / -j runs; expected numbers and names are recomputed from the '
+        'setUp/tearDown failures), verbosity 0..2, sequential / resumed / -j runs, every outcome kind under --repeat 2/3; expected numbers and names are recomputed from the '
         "world's own trace; non-trivial = at least one failure or error and one skip or two layers")
 TRUSTED_BASE = COMMON_TRUSTED + ['expected counts per test come from the unittest protocol model applied to the scripted behaviour; which tests ran comes from the trace']
 ASSUMPTIONS = COMMON_ASSUMPTIONS + ['statement evaluated for --repeat <= 1 and without -x; with --repeat n the runner reports the last '
@@ -28,6 +28,14 @@ def generate(rng, tier, rep):
             if T.get('deco_skip') and not any(not U.get('deco_skip') and U['layer'] == T['layer'] for U in c['tests']):
                 c['tests'].append({'layer': T['layer']})
         cases.append(c)
+    # --repeat with every outcome kind (the statement itself is evaluated for --repeat <= 1 only; with --repeat the per-iteration
+    # summaries, the lists and the totals are still compared with the model: nothing may leak from one iteration into the next)
+    kinds = [{}, {'body': 'fail'}, {'body': 'error'}, {'deco_skip': True}, {'body': 'skip'}, {'xf': True, 'body': 'fail'}, {'xf': True},
+             {'subs': ['fail', 'ok', 'error']}, {'tearDown': 'error'}, {'subs': ['skip']}]
+    layer = {'name': 'La', 'bases': [], 'kind': 'instance', 'hooks': {'setUp': ['ok'], 'tearDown': ['ok']}}
+    for i, k in enumerate(kinds if tier != 'search' else kinds[:3]):
+        for opts in (['--repeat', '3'], ['--repeat', '2', '-j2']):
+            cases.append({'layers': [layer], 'tests': [dict(k, layer=0), {'layer': 0}, dict(kinds[(i + 3) % len(kinds)], layer=None)], 'options': opts})
     # a layer subprocess dying while it writes its report: the lists must show an error for that layer
     for i in range({'quick': 12, 'thorough': 100, 'search': 0}[tier]):
         c = worldcase.gen_world(rng, faults=False, rich=False, opts=[rng.choice(['-j2', '-j3'])])
